@@ -832,7 +832,7 @@ pub fn gen_c10(rng: &mut Rng, tier: Tier) -> Case {
         }
         _ => {
             let queries = crate::props_iter::gen_queries(rng, &keys, 24, 2);
-            Case::Iter(IterCase { spec, env, queries, v1: true })
+            Case::Iter(IterCase { spec, env, queries, v1: true, interleave: false })
         }
     }
 }
